@@ -139,7 +139,13 @@ class DisjunctiveConditionsRemover(engines.engine.Engine, CompilerMixin):
         problem_kind: ProblemKind, compilation_kind: Optional[CompilationKind] = None
     ) -> ProblemKind:
         new_kind = problem_kind.clone()
-        new_kind.unset_conditions_kind("DISJUNCTIVE_CONDITIONS")
+        # the body of a quantifier is an atom for the DNF: a disjunction under
+        # an Exists / Forall is not removed
+        if not (
+            new_kind.has_existential_conditions()
+            or new_kind.has_universal_conditions()
+        ):
+            new_kind.unset_conditions_kind("DISJUNCTIVE_CONDITIONS")
         return new_kind
 
     def _compile(
